@@ -18,6 +18,7 @@ REQUIRED_THEOREMS = [
     "TapkeeVerif.C09.laplacian_psd",
     "TapkeeVerif.C09.heat_argument",
     "TapkeeVerif.C09.le_solution",
+    "TapkeeVerif.C09.skipped_eigenvector_is_constant",
     "TapkeeVerif.C09.diffusion_is_normalised_operator",
     "TapkeeVerif.C09.diffusion_top_eigenpair",
     "TapkeeVerif.C09.diffusion_conjugate",
